@@ -161,10 +161,10 @@ theorem C14_forms_agree (p : Bytes) (hp : Plain p) (hs : p.head? = some slash) :
     rw [ht]
     simp [setPath, hu, he]
 
-/-! ### escaped paths (fix D38)
+/-! ### escaped paths (fix D39)
 
   The same request line can arrive on three entries: gRPC (`:path`, never decoded), HTTP POST (`RouteHTTP`: RawPath, else
-  EscapedPath — the path as written) and gRPC-Web (`gRPCWebServerStream.Method()`).  Before fix D38 the last one returned
+  EscapedPath — the path as written) and gRPC-Web (`gRPCWebServerStream.Method()`).  Before fix D39 the last one returned
   `URL.Path`, the percent-DECODED path.  `C14_forms_agree_iff_before_fix` delimits the request paths on which that
   differs from the other two: exactly those containing a '%'.  The property text routes "the target whose current
   description lists package.Service" with "the method name passed through verbatim" for a call "arriving as gRPC, gRPC-Web
@@ -186,7 +186,7 @@ theorem C14_forms_agree_all (t : Bytes) (u : URL) (h : parseTarget t = some u) :
       simp [targetPath, List.takeWhile_cons] at hp
   · cases h
 
-/-- **Where the decoded reading differs** (the code before fix D38): `URL.Path` equals the path as written **iff** the
+/-- **Where the decoded reading differs** (the code before fix D39): `URL.Path` equals the path as written **iff** the
     path contains no '%'.  (net/url accepts a '%' only as the start of a valid escape, and every escape decodes to a
     single byte; so the set of paths on which the forms could disagree is exactly the set of paths with an escape.) -/
 theorem C14_forms_agree_iff_before_fix (t : Bytes) (u : URL) (h : parseTarget t = some u) :
@@ -228,7 +228,7 @@ theorem C14_web_http_same_route (pool : Name → Bool) (routes : SvcName → Opt
 def escTarget : Bytes := [47, 112, 37, 50, 69, 83, 47, 77]
 def escRoutes : SvcName → Option SvcRoute := fun s => if s = [112, 46, 83] then some ⟨[97], 1, 0⟩ else none
 
-/-- **Before fix D38, on the same bytes**: gRPC-Web decoded the path, routed to the owner of `p.S` and handed on the method
+/-- **Before fix D39, on the same bytes**: gRPC-Web decoded the path, routed to the owner of `p.S` and handed on the method
     string `/p.S/M` (not what the client sent); gRPC (`:path` verbatim) and HTTP POST answered "unknown service". -/
 theorem C14_escaped_path_forms_differ_before_fix :
     (parseTarget escTarget).map (fun u =>
@@ -402,7 +402,7 @@ example : Names [47, 112, 46, 83, 47, 77, 47, 120] [112, 46, 83] [77, 47, 120] :
 example : Names [112, 46, 83, 47] [112, 46, 83] [] := by unfold Names; decide
 example : parseRPCName [47, 47, 77] = some ([], [77]) := by decide
 example : Plain [47, 112, 46, 83, 47, 77] := by unfold Plain; decide
-/-- an escaped path was *not* read alike by the HTTP form (verbatim) and the gRPC-Web form before fix D38 (decoded) -/
+/-- an escaped path was *not* read alike by the HTTP form (verbatim) and the gRPC-Web form before fix D39 (decoded) -/
 example : (parseTarget [47, 112, 37, 50, 69, 83, 47, 77]).map (fun u => (httpName u, webNamePreFix u, webName u)) =
     some ([47, 112, 37, 50, 69, 83, 47, 77], [47, 112, 46, 83, 47, 77], [47, 112, 37, 50, 69, 83, 47, 77]) := by decide
 /-- `C14_forms_agree_iff_before_fix` is not vacuous: the escaped target is accepted and contains a '%' -/
